@@ -42,8 +42,12 @@ def cost_guard(c):
     return c
 
 
-def run_configs(ctx, configs, budget_s):
+def run_configs(ctx, configs, budget_s, mandatory=0):
+    """The first `mandatory` configurations always run; the rest while the time budget (counted from here) lasts."""
+    import time
+
     bridge.warm_up()
+    t_start = time.time()
     done = 0
     skipped = 0
     trees = 0
@@ -51,11 +55,11 @@ def run_configs(ctx, configs, budget_s):
     nontrivial = set()
     states_total = 0
     per_op = {}
-    for c in configs:
-        if ctx.elapsed() > budget_s:
+    for ci, c in enumerate(configs):
+        if ci >= mandatory and time.time() - t_start > budget_s:
             skipped += 1
             continue
-        st, probs = kernelmat.run_config(c, deadline=ctx.t0 + budget_s + 45)
+        st, probs = kernelmat.run_config(c, deadline=None if ci < mandatory else t_start + budget_s + 45)
         if st is None:
             skipped += 1
             continue
@@ -116,6 +120,8 @@ def check_pinned(ctx):
             continue
         for pin in f.get("pinned", []):
             c = pin["config"]
+            if ctx.tier == "quick" and pin.get("thorough_only"):
+                continue
             st, probs = kernelmat.run_config(c)
             n += 1
             if st["resid"] <= kernelmat.TOL and st["complete"]:
